@@ -10,25 +10,25 @@ sys.path.insert(0, HERE)
 
 NOT_APPLICABLE: dict[str, str] = {}
 TECHNIQUES = {
-    "C01": "static analysis: CFG dominance / must-guard rules, origin tracing (def-use) of operator and operand wiring, abstract interpretation of the seven activate methods on model rule blocks (operator identity), who-may-call scan",
-    "C02": "static analysis: array-taint dataflow over the call graph of Engine.process (sources/sinks/sanitisers), in-place-write and coercion rules, ownership (who-may-write) scan",
+    "C01": "static analysis: CFG dominance / must-guard rules, origin tracing (def-use) of operator and operand wiring, abstract interpretation of the seven activate methods on model rule blocks (operator identity; a selected rule fires before the next degree is computed), who-may-call scan",
+    "C02": "static analysis: array-taint dataflow over the call graph of Engine.process (sources/sinks/sanitisers), in-place-write / aliasing and coercion rules (scalar() yields plain arrays), ownership (who-may-write) scan, shape-lattice abstract interpretation",
     "C03": "static analysis: abstract interpretation of the membership kernels over an order-type domain with rational-function normal forms (real arithmetic) and an extended-sign domain; def-use rules; shape-lattice abstract interpretation of the kernels (broadcast shape, no mixing of operand dimensions)",
     "C04": "static analysis: abstract interpretation of the norm kernels per order type of the operands, canonical (normal-form) comparison with the documented formulas and laws; shape-lattice abstract interpretation of the kernels (broadcast shape, no mixing of operand dimensions)",
     "C05": "static analysis: abstract interpretation of the hedge kernels per order type, canonical (normal-form) comparison with the documented formulas and laws; shape-lattice abstract interpretation of the kernels (broadcast shape, no mixing of operand dimensions)",
-    "C06": "static analysis: operator-table extraction, guard truth tables over weak orders, parser automaton extraction with product comparison, pushdown abstract interpretation of infix_to_postfix, origin tracing",
+    "C06": "static analysis: operator-table extraction, guard truth tables over weak orders, abstract interpretation of Antecedent.load against the grammar automaton, of Antecedent.activation_degree on model trees, of Rule.load / unload on the four loaded states and of format_infix on a corpus of operands x operator symbols; pushdown abstract interpretation of infix_to_postfix",
     "C07": "static analysis: abstract interpretation of Consequent.modify with a symbolic activation degree on model consequents (uninterpreted hedges and numpy, the real Activated constructor and setter), call-graph who-may-call rules, in-place-write scan, abstract interpretation of Consequent.load against the grammar automaton",
     "C08": "static analysis: abstract interpretation of the seven activate methods on model rule blocks for every weak order of (degrees, 0, threshold) x rule states x parameters, call log compared with the definition; comparator table extraction; size-guard truth table; who-may-call scan",
     "C09": "static analysis: canonical forms of the array expressions (rational normal forms, negation normal forms, spelling identities) compared with the documented formulas and across the three maxima siblings; Boolean truth table of the selection mask; reducer-kind and axis rules; formula normal form of Op.midpoints",
     "C10": "static analysis: sibling comparison, path-sensitive decision table of infer_type, extended-sign abstract interpretation of zero-weight contributions, ownership rules",
     "C11": "static analysis: composition membership(tsukamoto(y)) normalised per order type (rational-function normal forms, factored signs); class-table and def-use rules; shape-lattice abstract interpretation of the kernels (broadcast shape, no mixing of operand dimensions)",
-    "C12": "static analysis: CFG must-precede / must-guard rules on OutputVariable.defuzzify, abstract interpretation of the cascade on abstract arrays for all two-call sequences x settings, who-may-write scan",
+    "C12": "static analysis: CFG must-precede / must-guard rules on OutputVariable.defuzzify and Engine.process, abstract interpretation of the cascade on abstract arrays for all two-call sequences x settings, abstract interpretation of the variable constructors (arguments stored as given), who-may-write scan",
     "C13": "static analysis: effect (read/write-set) analysis over the call graph, write-before-read of step state, abstract interpretation of the activate methods (deactivate-first, history-free), ownership / aliasing rules, copy-hook, shared-mutable and deepcopy-atomic scans",
-    "C14": "static analysis: extraction and entry-by-entry comparison of exporter and importer tables (keys, attributes, value kinds, parameter order, elision vs defaults, registration, field coverage); abstract interpretation of FllImporter.engine on model documents",
-    "C15": "static analysis: constructor-parameter vs emitted-field tables, guard-vs-default rules, alias discipline, __all__ coverage, truthiness scan, Engine.__init__ reference rule",
+    "C14": "static analysis: abstract interpretation of the whole round trip (FllExporter.engine, every parameters(), FllImporter.from_string, every configure() / setter / constructor) on model engines with symbolic numbers (sa/objexec.py): text fixed point and field-by-field equality; extraction and entry-by-entry comparison of exporter and importer tables; abstract interpretation of FllImporter.engine on model documents and of the constructors",
+    "C15": "static analysis: abstract interpretation of repr(engine) and of the evaluation of the text it yields (every __repr__, Representation.*, the constructors) on model engines with symbolic numbers under the three alias settings: field-by-field equality and text fixed point; abstract interpretation of the constructors (arguments stored as given); constructor-parameter vs emitted-field tables, guard-vs-default rules, alias discipline, __all__ coverage, truthiness scan",
     "C16": "static analysis: abstract interpretation of the text loaders, of infix_to_postfix / parse and of the FLL block importers on model inputs (clean rejection), parser automaton extraction, raise-site enumeration over the call graph, subscript guards over token counts",
     "C17": "static analysis: registry table extraction vs the specification ladder and numpy name map; pushdown abstract interpretation of infix_to_postfix / parse against reference transducers; truth tables of the pop rule",
     "C18": "static analysis: taint rule (fractional power -> truncation) on the grid size, abstract interpretation of write_from_scope + Op.increment over symbolic range bounds (exact linear forms) for bounded instance sizes, role-assignment interpretation of the row loop, origin tracing of the write plumbing",
-    "C19": "static analysis: abstract interpretation of Engine.is_ready on model engines for all 1024 (needed, present) configurations with differential attribution per operator kind, dereference guards on the processing path (path-sensitive), tokeniser agreement",
+    "C19": "static analysis: abstract interpretation of Engine.is_ready on model engines (seven antecedent shapes with their expression trees x conclusions x present / absent operators) with differential attribution per operator kind; of Antecedent.load followed by activation_degree on the loaded tree (loadable implies evaluable); of the activate methods (operator identity); dereference guards on the processing path, tokeniser agreement",
     "C20": "static analysis: abstract interpretation of the Settings.context generator over symbolic attribute values for all subsets of settings and exit kinds; CFG path rules; table and who-may-read/write scans",
 }
 ALL = [f"C{i:02d}" for i in range(1, 21)]
